@@ -111,3 +111,33 @@ Proof.
   unfold r_element_from_bytes. destruct (length bs =? 32)%nat; [|discriminate].
   destruct (decompress K bs) as [Q|] eqn:E; cbn; [|discriminate]. intro H. injection H as <-. now apply (decompress_valid K bs).
 Qed.
+
+(* ---------------------------------------------------------------- Ed25519 point decoding (Model/Ed25519.v) *)
+From Strand Require Import Model.Ed25519.
+
+(* CompressedEdwardsY::decompress: whatever it accepts — the public key A and the commitment R of a signature — is a valid
+   point of the curve, for every byte string (so the group-law theorems apply to everything the verifiers compute with) *)
+Theorem ed_decompress_valid K bs P : ed_decompress K bs = Some P -> valid P.
+Proof.
+  unfold ed_decompress. destruct (negb (length bs =? 32)%nat); [discriminate|].
+  remember (Z.testbit (le_int bs) 255) as sgn eqn:Esgn. clear Esgn.
+  set (y := fmod K (Z.land (le_int bs) (2 ^ 255 - 1))).
+  set (u := fsub K (fsq K y) 1). set (v := fadd K (fmul K (fsq K y) ed_d) 1).
+  pose proof (sqrt_ratio_ok K u v) as SQ.
+  destruct (sqrt_ratio_m1 K u v) as [ok x0]. cbn [fst snd] in SQ.
+  destruct ok; cbn [negb]; [|discriminate]. specialize (SQ eq_refl).
+  intro E. injection E as <-.
+  set (x := if sgn then fneg K x0 else x0).
+  assert (Ex2 : fm (F x) (F x) = fm (F x0) (F x0)).
+  { unfold x. destruct sgn; [rewrite F_fneg; ring | reflexivity]. }
+  unfold valid, aff. cbn [px py pz pt]. rewrite F_1, F_fmul.
+  split; [exact (F_1_neq_0 Fth)|]. split; [|ring].
+  rewrite aff_z1. unfold Edwards.onc.
+  assert (Eu : F u = fs (fm (F y) (F y)) f1) by (unfold u, fsq; now rewrite F_fsub, F_fmul, F_1).
+  assert (Ev : F v = fa (fm (fm (F y) (F y)) dF) f1) by (unfold v, fsq; now rewrite F_fadd, !F_fmul, F_1).
+  rewrite Eu, Ev in SQ.
+  transitivity (fa f1 (fm (fm dF (fm (F x) (F x))) (fm (F y) (F y)))); [|ring].
+  transitivity (fs (fm (F y) (F y)) (fm (F x) (F x))); [ring|].
+  rewrite Ex2. generalize dependent (F x0). generalize (F y). clear. intros Y X SQ.
+  nsatz.
+Qed.
